@@ -183,7 +183,12 @@ def tree(rnd, d, D, T, depth, normalizable=False, first=None, allow=ALL_LEAVES):
         # evaluation domain: m = base^x with x in inner's domain
         lo = [max(base ** max(l, -3.0), 1e-3) for l in inner.lo]
         hi = [base ** min(h, 3.0) for h in inner.hi]
-        kinks = [[base ** kk for kk in ks] for ks in inner.kinks]
+        def pw(kk):
+            try:
+                return base ** kk
+            except OverflowError:          # a kink of a nested transform far outside every evaluation domain
+                return math.inf
+        kinks = [[pw(kk) for kk in ks] for ks in inner.kinks]
         return Node(obj, f"(DLog {q(base)} {inner.term})", d, lo, hi, f"LogSpace(base={base})[{inner.desc}]", kinks, True)
     return leaf(rnd, d, D, allow=allow, normalizable=normalizable)
 
